@@ -18,6 +18,10 @@
 //	filter <G> <id,id,...>
 //	    one WithRetransmissionSupport handler called from G goroutines (ids dealt round robin,
 //	    all released together). obs: sorted delegate invocations (a duplicate shows twice)
+//	flood <n>
+//	    one WithRetransmissionSupport handler: message a0, then n further distinct messages,
+//	    then a0 again (a late retransmission after a long history). obs: first=<delegate calls
+//	    for a0> total=<delegate calls>
 //	seq <local|libp2p> <G> <M>
 //	    G goroutines call nextSeqno M times each. obs: n=<count> distinct=<bool> min max mono=<bool>
 package main
@@ -76,6 +80,10 @@ func gen(r *hx.Rng, n int, tier string) []string {
 			}
 			ops = append(ops, fmt.Sprintf("filter %d %s", g, strings.Join(ids, ",")))
 		case 2:
+			if r.Chance(1, 3) {
+				ops = append(ops, fmt.Sprintf("flood %d", hx.Pick(r, []int{0, 1, 100, 8191, 8192, 8193, 20000, 70000})+r.Intn(3)))
+				continue
+			}
 			ops = append(ops, fmt.Sprintf("seq %s %d %d", hx.Pick(r, []string{"local", "libp2p"}), r.Range(1, 16), r.Range(1, 50)))
 		default:
 			backend := hx.Pick(r, []string{"local", "libp2p"})
@@ -148,10 +156,28 @@ func (m *rawMsg) Type() string                               { return "raw" }
 func (m *rawMsg) SenderPublicKey() []byte                    { return nil }
 func (m *rawMsg) Seqno() uint64                              { return m.seq }
 
+// A wait that times out is an observation ("stall:<where>"), never a verdict of the harness.
+// After the first timeout of an op its remaining waits give up at once, and after a few stalled
+// ops in one process the patience drops.
+var (
+	opStalled  int32
+	stalledOps int32
+)
+
 func waitFor(cond func() bool) bool {
-	deadline := time.Now().Add(8 * time.Second)
+	to := 6 * time.Second
+	if atomic.LoadInt32(&stalledOps) >= 6 {
+		to = 200 * time.Millisecond
+	}
+	if atomic.LoadInt32(&opStalled) != 0 {
+		to = 20 * time.Millisecond
+	}
+	deadline := time.Now().Add(to)
 	for i := 0; !cond(); i++ {
 		if time.Now().After(deadline) {
+			if atomic.CompareAndSwapInt32(&opStalled, 0, 1) {
+				atomic.AddInt32(&stalledOps, 1)
+			}
 			return false
 		}
 		if i < 100 {
@@ -245,6 +271,36 @@ func execFilter(f []string) (string, string) {
 		tag += "+concurrent"
 	}
 	return showIDs(got, ","), tag
+}
+
+// ---- flood ------------------------------------------------------------------
+
+func execFlood(f []string) (string, string) {
+	n, err := strconv.ParseUint(f[1], 10, 32)
+	if err != nil || n > 200000 || f[1][0] == '+' {
+		return "bad-op", "bad"
+	}
+	first, total := 0, 0
+	handler := retransmission.WithRetransmissionSupport(func(m net.Message) {
+		total++
+		if m.Seqno() == 0 {
+			first++
+		}
+	})
+	handler(&rawMsg{"sender-a", 0})
+	for i := uint64(1); i <= n; i++ {
+		s := rawID("sender-a")
+		if i%3 == 0 {
+			s = "sender-b"
+		}
+		handler(&rawMsg{s, i})
+	}
+	handler(&rawMsg{"sender-a", 0})
+	tag := "flood"
+	if n >= 10000 {
+		tag += "+long"
+	}
+	return fmt.Sprintf("first=%d total=%d", first, total), tag
 }
 
 // ---- backends -----------------------------------------------------------------
@@ -672,8 +728,11 @@ func execChan(f []string) (string, string) {
 }
 
 func exec(op string) (string, string) {
+	atomic.StoreInt32(&opStalled, 0)
 	f := strings.Split(op, " ")
 	switch {
+	case len(f) == 2 && f[0] == "flood":
+		return execFlood(f)
 	case len(f) == 3 && f[0] == "filter":
 		return execFilter(f)
 	case len(f) == 4 && f[0] == "seq":
